@@ -40,6 +40,7 @@ type tOp struct {
 }
 
 type c15Run struct {
+	oneTask   bool
 	ch        *zsim.Choices
 	levelDst  bool
 	blockDst  int
@@ -337,6 +338,10 @@ func (r *c15Run) genLine() string {
 		n = 65536 + r.ch.Intn(5000) // longer than any 16-bit length field
 		zsim.Probe("huge_line")
 	}
+	if r.oneTask && r.ch.Chance(1, 8000) {
+		n = 1<<24 + r.ch.Intn(64) // longer than any 24-bit length field (rare: such a run costs ~100 ms)
+		zsim.Probe("line_over_16MiB")
+	}
 	line := fmt.Sprintf("line%d %s\n", r.nLine, strings.Repeat("z", n))
 	if r.lineSeq != nil {
 		r.lineSeq[line] = r.nLine
@@ -369,6 +374,7 @@ func (c15World) Run(prop string, ch *zsim.Choices, trace bool) *RunResult {
 			nTasks = 1
 		}
 		s.ArmDraw([]string{"writer.go"})
+		r.oneTask = nTasks == 1 // (runs with a 16 MiB line are kept out of the linearizability search)
 		summary = fmt.Sprintf("cond=%d trig=%d level-dst=%v blocking-dst=%d tasks=%d writers=%d reuse-limit=%d", r.cond, r.trig, r.levelDst, r.blockDst, nTasks, nInst, zerolog.TriggerLevelWriterBufferReuseLimit)
 		zsim.Log("config: %s", summary)
 		var dst interface {
@@ -490,7 +496,7 @@ func (c15World) Run(prop string, ch *zsim.Choices, trace bool) *RunResult {
 			for _, op := range h {
 				ops = append(ops, porcupine.Operation{ClientId: op.client, Input: op.in, Call: op.call, Output: op, Return: op.ret})
 			}
-			switch porcupine.CheckOperationsTimeout(r.model(), ops, 20*time.Second) {
+			switch porcupine.CheckOperationsTimeout(r.model(), ops, 8*time.Second) {
 			case porcupine.Illegal:
 				var d []string
 				for _, op := range h {
